@@ -108,6 +108,10 @@ def check(prog: Program, rep):
     from rules.c10 import max_occurrence_rule
     from rules.common import RuleProxy
     max_occurrence_rule(prog, RuleProxy(rep, "C03.R8"), "C10.R5")
+    # ... and only against the thresholds of rows 7a (accepted below them, MinFlowDecomp reports fewer paths than the constrained minimum)
+    from rules.c10 import greedy_rejection, greedy_units
+    greedy_rejection(prog, RuleProxy(rep, "C03.R8"), "C10.R5")
+    greedy_units(prog, RuleProxy(rep, "C03.R8"), "C10.R5")
     rep.rule("C03.R9", "solver noise of a float generating set does not reach the given-weights model as coefficients", floor=1)
     from rules.values import generating_set_as_weights
     generating_set_as_weights(prog, rep, "C03.R9", "MinFlowDecomp")
